@@ -7,8 +7,10 @@ From Octo Require Export GenAstFormat.
 Open Scope Z_scope.
 
 (* ------------------------------------------------------------------ AST *)
-Inductive lit := LStr (s : ident) | LInt (neg : bool) (digits : ident) | LFloat (s : ident) | LTrue | LFalse | LNull.
-Inductive cmpop := OEq | OLt | OGt | OLe | OGe | ONe | ONse | OLike | ONotLike | OIn | ONotIn.
+Inductive lit := LStr (s : ident) | LInt (neg : bool) (digits : ident) | LFloat (s : ident) | LTrue | LFalse | LNull
+  | LHex (s : ident) | LBit (s : ident) | LHexNum (s : ident) | LArg (s : ident).   (* x'..', b'..', 0x.., bind variable *)
+Inductive cmpop := OEq | OLt | OGt | OLe | OGe | ONe | ONse | OLike | ONotLike | OIn | ONotIn
+  | ORegexp | ONotRegexp | OLikeRe | OLikeReCI | ONotLikeRe | ONotLikeReCI.       (* regexp, not regexp, ~, ~*, !~, !~* *)
 Inductive isop := IsNull | IsNotNull | IsTrue | IsNotTrue | IsFalse | IsNotFalse.
 Inductive binop := BPlus | BMinus | BMult | BDiv.
 Inductive ctype := CTSimple (name : ident) | CTList | CTObject.
@@ -31,9 +33,15 @@ Inductive expr :=
 | ESubquery (s : select)
 | ELit (l : lit)
 | ECol (t name : ident)                             (* ColName, t = [] when unqualified *)
-with select :=
+| ERange (neg : bool) (l from to : expr)             (* RangeCond: [not] between *)
+| ECase (e : option expr) (whens : list (expr * expr)) (els : option expr)
+| EExists (s : select)
+| EIndex (e i : expr)                               (* BinaryExpr "[]": e[i] *)
+with select :=                                      (* select_statement *)
 | Select (distinct : bool) (items : list sel_expr) (from : list table_expr) (where_ : option expr)
-         (group_by : list expr) (triggers : list trigger) (order_by : list order) (lim : option limit)
+         (group_by : list expr) (having : option expr) (triggers : list trigger) (order_by : list order) (lim : option limit)
+| With (ctes : list cte) (body : select)
+with cte := Cte (name : ident) (s : select)
 with sel_expr := SStar | SQualStar (t : ident) | SExpr (e : expr) (alias : ident) | SExplode (e : expr)
 with table_expr :=
 | TName (db name alias : ident)                     (* AliasedTableExpr{TableName} *)
@@ -86,6 +94,10 @@ Definition print_lit (l : lit) : list token :=
   | LTrue => interp tpl_BoolVal [("node", fv_opt [] true)]%string
   | LFalse => interp tpl_BoolVal [("node", fv_opt [] false)]%string
   | LNull => interp tpl_NullVal []
+  | LHex s => [THex s]            (* X'%s' scans as HEX *)
+  | LBit s => [TBit s]            (* B'%s' scans as BIT_LITERAL *)
+  | LHexNum s => [THexNum s]
+  | LArg s => [TArg s]            (* WriteArg(":v1") scans as VALUE_ARG *)
   end.
 
 Definition cmp_str (op : cmpop) : list token :=
@@ -93,6 +105,8 @@ Definition cmp_str (op : cmpop) : list token :=
   | OEq => str_EqualStr | OLt => str_LessThanStr | OGt => str_GreaterThanStr | OLe => str_LessEqualStr
   | OGe => str_GreaterEqualStr | ONe => str_NotEqualStr | ONse => str_NullSafeEqualStr
   | OLike => str_LikeStr | ONotLike => str_NotLikeStr | OIn => str_InStr | ONotIn => str_NotInStr
+  | ORegexp => str_RegexpStr | ONotRegexp => str_NotRegexpStr | OLikeRe => str_LikeRegexpStr
+  | OLikeReCI => str_LikeRegexpCaseInsensitiveStr | ONotLikeRe => str_NotLikeRegexpStr | ONotLikeReCI => str_NotLikeRegexpCaseInsensitiveStr
   end.
 Definition is_str (op : isop) : list token :=
   match op with
@@ -126,8 +140,8 @@ Fixpoint starts_minus (e : expr) : bool :=
   match e with
   | ENeg _ => true
   | ELit (LInt true _) => true
-  | EField e' _ => starts_minus e'
-  | EBin _ l _ | ECmp _ l _ | EAnd l _ | EOr l _ | EIs _ l => starts_minus l
+  | EField e' _ | EIndex e' _ => starts_minus e'
+  | EBin _ l _ | ECmp _ l _ | EAnd l _ | EOr l _ | EIs _ l | ERange _ l _ _ => starts_minus l
   | _ => false
   end.
 Definition is_neg (e : expr) : bool := match e with ENeg _ => true | _ => false end.
@@ -168,10 +182,21 @@ Fixpoint print_expr (e : expr) : list token :=
   | ELit l => print_lit l
   | ECol t n => interp tpl_ColName [("!node.Qualifier.IsEmpty()", fv_opt [] (negb (is_empty t)));
                                     ("Qualifier", fv (print_tablename [] t)); ("Name", fv (p_id n))]%string
+  | ERange neg l f t => interp tpl_RangeCond [("Left", fv (print_expr l)); ("Operator", fv (if neg then str_NotBetweenStr else str_BetweenStr));
+                                              ("From", fv (print_expr f)); ("To", fv (print_expr t))]%string
+  | ECase e whens els =>
+      interp tpl_CaseExpr
+        [("node.Expr != nil", fv_opt [] (match e with Some _ => true | None => false end));
+         ("Expr", fv (match e with Some x => print_expr x | None => [] end));
+         ("Whens", fv (List.concat (map (fun w => interp tpl_When [("Cond", fv (print_expr (fst w))); ("Val", fv (print_expr (snd w)))]) whens)));
+         ("node.Else != nil", fv_opt [] (match els with Some _ => true | None => false end));
+         ("Else", fv (match els with Some x => print_expr x | None => [] end))]%string
+  | EExists s => interp tpl_ExistsExpr [("Subquery", fv (interp tpl_Subquery [("Select", fv (print_select s))]))]%string
+  | EIndex x i => interp tpl_BinaryExpr [("node.Operator == ArrayElement", fv_opt [] true); ("Left", fv (print_expr x)); ("Right", fv (print_expr i))]%string
   end
 with print_select (s : select) : list token :=
   match s with
-  | Select d items from w gb trs ob lim =>
+  | Select d items from w gb hv trs ob lim =>
       interp (t_Select T)
         [("Comments", fv []); ("Cache", fv []); ("Distinct", fv (if d then str_DistinctStr else [])); ("Hints", fv []);
          ("SelectExprs", fv (interp_list lst_SelectExprs (map print_sel items)));
@@ -181,7 +206,10 @@ with print_select (s : select) : list token :=
                        | Some e => interp tpl_Where [("Type", fv str_WhereStr); ("Expr", fv (print_expr e))]
                        end));
          ("GroupBy", fv (interp_list lst_GroupBy (map print_expr gb)));
-         ("Having", fv []);
+         ("Having", fv (match hv with
+                        | None => []                                     (* guard_Where *)
+                        | Some e => interp tpl_Where [("Type", fv str_HavingStr); ("Expr", fv (print_expr e))]
+                        end));
          ("Trigger", fv (interp_list lst_Triggers (map print_trigger trs)));
          ("OrderBy", fv (interp_list lst_OrderBy (map print_order ob)));
          ("Limit", fv (match lim with
@@ -192,6 +220,13 @@ with print_select (s : select) : list token :=
                                              ("Rowcount", fv (print_expr rc))]
                        end));
          ("Lock", fv [])]%string
+  | With ctes body =>
+      interp tpl_With [("CommonTableExpressions", fv (interp_list lst_CommonTableExpressions (map print_cte ctes)));
+                       ("Select", fv (print_select body))]%string
+  end
+with print_cte (c : cte) : list token :=
+  match c with
+  | Cte n s => interp tpl_CommonTableExpression [("Name", fv (p_id n)); ("Select", fv (print_select s))]%string
   end
 with print_sel (x : sel_expr) : list token :=
   match x with
@@ -267,7 +302,8 @@ Definition guards_ok : bool :=
          guard_FieldDescriptorTableValuedFunctionArgumentValue; guard_AndExpr; guard_OrExpr; guard_NotExpr; guard_ParenExpr;
          guard_ComparisonExpr; guard_IsExpr; guard_NullVal; guard_BoolVal; guard_ObjectFieldAccess; guard_ColName; guard_ValTuple;
          guard_Subquery; guard_BinaryExpr; guard_IntervalExpr; guard_ConvertExpr; guard_ConvertTypeSimple; guard_ConvertTypeList;
-         guard_ConvertTypeObject; guard_WatermarkTrigger; guard_EndOfStreamTrigger; guard_DelayTrigger; guard_CountingTrigger])%string.
+         guard_ConvertTypeObject; guard_WatermarkTrigger; guard_EndOfStreamTrigger; guard_DelayTrigger; guard_CountingTrigger;
+         guard_RangeCond; guard_CaseExpr; guard_When; guard_ExistsExpr; guard_With; guard_CommonTableExpression])%string.
 
 (* the precedence levels the reference parser is written with, checked against the lines of sql.y *)
 Definition prec_ok : bool :=
@@ -275,7 +311,8 @@ Definition prec_ok : bool :=
   let left s := match prec_assoc sqly_prec s with Some ALeft => true | _ => false end in
   let right s := match prec_assoc sqly_prec s with Some ARight => true | _ => false end in
   ((0 <? lv "OR") && (lv "OR" <? lv "AND") && (lv "AND" <? lv "NOT") && (lv "NOT" <? lv "'='")
-   && forallb (fun s => lv s =? lv "'='") ["'<'"; "'>'"; "LE"; "GE"; "NE"; "NULL_SAFE_EQUAL"; "IS"; "LIKE"; "IN"]
+   && forallb (fun s => lv s =? lv "'='") ["'<'"; "'>'"; "LE"; "GE"; "NE"; "NULL_SAFE_EQUAL"; "IS"; "LIKE"; "IN"; "REGEXP"]
+   && (lv "NOT" <? lv "BETWEEN") && (lv "BETWEEN" <? lv "'='") && (lv "CASE" =? lv "BETWEEN") && (lv "'['" =? 0)
    && (lv "'='" <? lv "'+'") && (lv "'-'" =? lv "'+'") && (lv "'+'" <? lv "'*'") && (lv "'/'" =? lv "'*'")
    && (lv "'*'" <? lv "UNARY") && (lv "UNARY" <? lv "INTERVAL")
    && (lv "JOIN" <? lv "ON") && forallb (fun s => lv s =? lv "JOIN") ["LOOKUP"; "LEFT"; "RIGHT"; "OUTER"]
@@ -335,13 +372,15 @@ Definition op_cmp (t : token) : option cmpop :=
   match t with
   | TK P_eq => Some OEq | TK P_lt => Some OLt | TK P_gt => Some OGt | TK P_le => Some OLe | TK P_ge => Some OGe
   | TK P_ne => Some ONe | TK P_nseq => Some ONse | TK K_like => Some OLike
+  | TK K_regexp => Some ORegexp | TK P_tilde => Some OLikeRe | TK P_tildestar => Some OLikeReCI
+  | TK P_ntilde => Some ONotLikeRe | TK P_ntildestar => Some ONotLikeReCI
   | _ => None
   end.
 
 Definition neg_fold (e : expr) : expr :=
   match e with ELit (LInt neg d) => ELit (LInt (negb neg) d) | _ => ENeg e end.
 Definition is_ve (e : expr) : bool :=
-  match e with EAnd _ _ | EOr _ _ | ENot _ | ECmp _ _ _ | EIs _ _ => false | _ => true end.
+  match e with EAnd _ _ | EOr _ _ | ENot _ | ECmp _ _ _ | EIs _ _ | ERange _ _ _ _ | EExists _ => false | _ => true end.
 
 (* the parsers entered recursively (with less fuel) *)
 Record parsers := {
@@ -363,6 +402,24 @@ Definition parse_ctype (ts : list token) : res ctype :=
   | _ => Err E_syntax
   end.
 
+(* WHEN e THEN e, one or more *)
+Fixpoint whens_ (k : nat) (ts : list token) : res (list (expr * expr)) :=
+  match ts with
+  | TK K_when :: r =>
+      do (c, r1) <- p_expr P r;
+      expect K_then r1 (fun r2 =>
+        do (v, r3) <- p_expr P r2;
+        match r3 with
+        | TK K_when :: _ =>
+            match k with
+            | O => Err E_fuel
+            | S k' => do (ws, r4) <- whens_ k' r3; Ok ((c, v) :: ws, r4)
+            end
+        | _ => Ok ([(c, v)], r3)
+        end)
+  | _ => Err E_syntax
+  end.
+
 Definition primary_ (ts : list token) : res expr :=
   match ts with
   | TStr s :: r => Ok (ELit (LStr s), r)
@@ -371,11 +428,26 @@ Definition primary_ (ts : list token) : res expr :=
   | TK K_true :: r => Ok (ELit LTrue, r)
   | TK K_false :: r => Ok (ELit LFalse, r)
   | TK K_null :: r => Ok (ELit LNull, r)
-  | TK P_lparen :: (TK K_select :: _) as r =>
+  | THex s :: r => Ok (ELit (LHex s), r)
+  | TBit s :: r => Ok (ELit (LBit s), r)
+  | THexNum s :: r => Ok (ELit (LHexNum s), r)
+  | TArg s :: r => Ok (ELit (LArg s), r)
+  | TK P_lparen :: (TK K_select :: _) as r | TK P_lparen :: (TK K_with :: _) as r =>
       do (s, r1) <- p_select P r; expect P_rparen r1 (fun r2 => Ok (ESubquery s, r2))
   | TK P_lparen :: r =>
       do (es, r1) <- sep_list (p_expr P) (List.length r) r;
       expect P_rparen r1 (fun r2 => Ok (match es with [e] => EParen e | _ => ETuple es end, r2))
+  | TK K_case :: r =>
+      do (e, r1) <- match r with
+                    | TK K_when :: _ => Ok (None, r)
+                    | _ => do (x, r') <- p_expr P r; Ok (Some x, r')
+                    end;
+      do (ws, r2) <- whens_ (List.length r1) r1;
+      match r2 with
+      | TK K_else :: r3 => do (x, r4) <- p_expr P r3; expect K_end r4 (fun r5 => Ok (ECase e ws (Some x), r5))
+      | TK K_end :: r3 => Ok (ECase e ws None, r3)
+      | _ => Err E_syntax
+      end
   | TK K_interval :: r =>
       do (e, r1) <- p_add P r;
       match r1 with TId u :: r2 => Ok (EInterval e u, r2) | _ => Err E_syntax end
@@ -407,6 +479,11 @@ Fixpoint postfix_loop (k : nat) (acc : expr) (ts : list token) : res expr :=
       | S k' => do (t, r') <- parse_ctype r; postfix_loop k' (EConvert acc t) r'
       | O => Err E_fuel
       end
+  | TK P_lbracket :: r =>
+      match k with
+      | S k' => do (i, r') <- p_add P r; expect P_rbracket r' (fun r'' => postfix_loop k' (EIndex acc i) r'')
+      | O => Err E_fuel
+      end
   | _ => Ok (acc, ts)
   end.
 Definition postfix_ (ts : list token) : res expr :=
@@ -423,7 +500,7 @@ Definition add_ := chain mul_ op_add.
 
 Definition in_rhs (ts : list token) : res expr :=
   match ts with
-  | TK P_lparen :: (TK K_select :: _) as r =>
+  | TK P_lparen :: (TK K_select :: _) as r | TK P_lparen :: (TK K_with :: _) as r =>
       do (s, r1) <- p_select P r; expect P_rparen r1 (fun r2 => Ok (ESubquery s, r2))
   | TK P_lparen :: r =>
       do (es, r1) <- sep_list (p_expr P) (List.length r) r; expect P_rparen r1 (fun r2 => Ok (ETuple es, r2))
@@ -431,9 +508,13 @@ Definition in_rhs (ts : list token) : res expr :=
   end.
 
 (* conditions are not associative: both sides are value_expressions *)
-Definition cond_ (ts : list token) : res expr :=
-  do (l, r) <- add_ ts;
+Definition between_ (neg : bool) (l : expr) (ts : list token) : res expr :=
+  do (f, r1) <- add_ ts; expect K_and r1 (fun r2 => do (t, r3) <- add_ r2; Ok (ERange neg l f t, r3)).
+Definition cond_rest (l : expr) (r : list token) : res expr :=
   match r with
+  | TK K_between :: r1 => between_ false l r1
+  | TK K_not :: TK K_between :: r1 => between_ true l r1
+  | TK K_not :: TK K_regexp :: r1 => do (x, r2) <- add_ r1; Ok (ECmp ONotRegexp l x, r2)
   | TK K_in :: r1 => do (x, r2) <- in_rhs r1; Ok (ECmp OIn l x, r2)
   | TK K_not :: TK K_in :: r1 => do (x, r2) <- in_rhs r1; Ok (ECmp ONotIn l x, r2)
   | TK K_not :: TK K_like :: r1 => do (x, r2) <- add_ r1; Ok (ECmp ONotLike l x, r2)
@@ -444,6 +525,13 @@ Definition cond_ (ts : list token) : res expr :=
       | None => Ok (l, r)
       end
   | [] => Ok (l, r)
+  end.
+Definition cond_ (ts : list token) : res expr :=
+  match ts with
+  | TK K_exists :: ((TK P_lparen :: (TK K_select :: _)) | (TK P_lparen :: (TK K_with :: _))) as r0 =>
+      do (s, r1) <- p_select P (tl r0); expect P_rparen r1 (fun r2 => Ok (EExists s, r2))
+  | TK K_exists :: _ => Err E_syntax
+  | _ => do (l, r) <- add_ ts; cond_rest l r
   end.
 
 Definition is_suffix (ts : list token) : option (isop * list token) :=
@@ -525,6 +613,11 @@ Definition groupby_opt (ts : list token) : res (list expr) :=
   | TK K_group :: TK K_by :: r' => sep_list (p_expr P) (List.length r') r'
   | _ => Ok ([], ts)
   end.
+Definition having_opt (ts : list token) : res (option expr) :=
+  match ts with
+  | TK K_having :: r' => do (e, r'') <- p_expr P r'; Ok (Some e, r'')
+  | _ => Ok (None, ts)
+  end.
 Definition triggers_opt (ts : list token) : res (list trigger) :=
   match ts with
   | TK K_trigger :: r' => sep_list trigger_ (List.length r') r'
@@ -549,6 +642,25 @@ Definition limit_opt (ts : list token) : res (option limit) :=
 Definition distinct_opt (ts : list token) : bool * list token :=
   match ts with TK K_distinct :: r' => (true, r') | _ => (false, ts) end.
 
+Definition cte_ (ts : list token) : res cte :=
+  match ts with
+  | TId n :: TK K_as :: TK P_lparen :: r => do (s, r1) <- p_select P r; expect P_rparen r1 (fun r2 => Ok (Cte n s, r2))
+  | _ => Err E_syntax
+  end.
+
+(* cte_list comma_opt: a comma that is not followed by another cte is the optional trailing comma *)
+Fixpoint ctes_ (k : nat) (ts : list token) : res (list cte) :=
+  do (c, r) <- cte_ ts;
+  match r with
+  | TK P_comma :: (TId _ :: _) as r' =>
+      match k with
+      | O => Err E_fuel
+      | S k' => do (cs, r'') <- ctes_ k' r'; Ok (c :: cs, r'')
+      end
+  | TK P_comma :: r' => Ok ([c], r')
+  | _ => Ok ([c], r)
+  end.
+
 Definition select_ (ts : list token) : res select :=
   match ts with
   | TK K_select :: r0 =>
@@ -557,10 +669,15 @@ Definition select_ (ts : list token) : res select :=
       do (from, r2) <- from_opt r1;
       do (w, r3) <- where_opt r2;
       do (gb, r4) <- groupby_opt r3;
-      do (trs, r5) <- triggers_opt r4;
+      do (hv, r4') <- having_opt r4;
+      do (trs, r5) <- triggers_opt r4';
       do (ob, r6) <- orderby_opt r5;
       do (lim, r7) <- limit_opt r6;
-      Ok (Select d items from w gb trs ob lim, r7)
+      Ok (Select d items from w gb hv trs ob lim, r7)
+  | TK K_with :: r0 =>                       (* WITH cte_list comma_opt select_statement *)
+      do (ctes, r1) <- ctes_ (List.length r0) r0;
+      do (body, r2) <- p_select P r1;
+      Ok (With ctes body, r2)
   | _ => Err E_syntax
   end.
 
@@ -591,7 +708,7 @@ Definition tvf_arg_ (ts : list token) : res tvf_arg :=
 
 Definition tfactor_ (ts : list token) : res table_expr :=
   match ts with
-  | TK P_lparen :: (TK K_select :: _) as r =>
+  | TK P_lparen :: (TK K_select :: _) as r | TK P_lparen :: (TK K_with :: _) as r =>
       do (s, r1) <- p_select P r; expect P_rparen r1 (fun r2 => alias_req r2 (fun a r3 => Ok (TSub s a, r3)))
   | TK P_lparen :: r =>
       do (l, r1) <- sep_list (p_tref P) (List.length r) r; expect P_rparen r1 (fun r2 => Ok (TParen l, r2))
@@ -606,9 +723,9 @@ Definition tfactor_ (ts : list token) : res table_expr :=
 
 Definition join_head (ts : list token) : option (jstrategy * jkind * list token) :=
   match ts with
-  | TK K_join :: r => Some (SUndefined, JInner, r)
-  | TK K_lookup :: TK K_join :: r => Some (SLookup, JInner, r)
-  | TK K_stream :: TK K_join :: r => Some (SStream, JInner, r)
+  | TK K_join :: r | TK K_inner :: TK K_join :: r | TK K_cross :: TK K_join :: r => Some (SUndefined, JInner, r)
+  | TK K_lookup :: TK K_join :: r | TK K_lookup :: TK K_inner :: TK K_join :: r | TK K_lookup :: TK K_cross :: TK K_join :: r => Some (SLookup, JInner, r)
+  | TK K_stream :: TK K_join :: r | TK K_stream :: TK K_inner :: TK K_join :: r | TK K_stream :: TK K_cross :: TK K_join :: r => Some (SStream, JInner, r)
   | TK K_left :: TK K_join :: r | TK K_left :: TK K_outer :: TK K_join :: r => Some (SNone, JLeft, r)
   | TK K_right :: TK K_join :: r | TK K_right :: TK K_outer :: TK K_join :: r => Some (SNone, JRight, r)
   | TK K_outer :: TK K_join :: r => Some (SNone, JOuter, r)
@@ -675,13 +792,15 @@ Definition lit_eqb (a b : lit) : bool :=
   match a, b with
   | LStr x, LStr y | LFloat x, LFloat y => ident_eqb x y
   | LInt n x, LInt m y => Bool.eqb n m && ident_eqb x y
+  | LHex x, LHex y | LBit x, LBit y | LHexNum x, LHexNum y | LArg x, LArg y => ident_eqb x y
   | LTrue, LTrue | LFalse, LFalse | LNull, LNull => true
   | _, _ => false
   end.
 Definition cmpop_eqb (a b : cmpop) : bool :=
   match a, b with
   | OEq, OEq | OLt, OLt | OGt, OGt | OLe, OLe | OGe, OGe | ONe, ONe | ONse, ONse | OLike, OLike
-  | ONotLike, ONotLike | OIn, OIn | ONotIn, ONotIn => true
+  | ONotLike, ONotLike | OIn, OIn | ONotIn, ONotIn | ORegexp, ORegexp | ONotRegexp, ONotRegexp | OLikeRe, OLikeRe
+  | OLikeReCI, OLikeReCI | ONotLikeRe, ONotLikeRe | ONotLikeReCI, ONotLikeReCI => true
   | _, _ => false
   end.
 Definition isop_eqb (a b : isop) : bool :=
@@ -714,14 +833,22 @@ Fixpoint expr_eqb (a b : expr) : bool :=
   | ESubquery s, ESubquery s' => select_eqb s s'
   | ELit x, ELit y => lit_eqb x y
   | ECol t n, ECol t' n' => ident_eqb t t' && ident_eqb n n'
+  | ERange n l f t, ERange n' l' f' t' => Bool.eqb n n' && expr_eqb l l' && expr_eqb f f' && expr_eqb t t'
+  | ECase e ws x, ECase e' ws' x' =>
+      option_eqb expr_eqb e e' && list_eqb (fun p q => expr_eqb (fst p) (fst q) && expr_eqb (snd p) (snd q)) ws ws' && option_eqb expr_eqb x x'
+  | EExists s, EExists s' => select_eqb s s'
+  | EIndex x i, EIndex y j => expr_eqb x y && expr_eqb i j
   | _, _ => false
   end
 with select_eqb (a b : select) : bool :=
   match a, b with
-  | Select d i f w g t o l, Select d' i' f' w' g' t' o' l' =>
+  | With cs x, With cs' x' =>
+      list_eqb (fun p q => match p, q with Cte n s, Cte n' s' => ident_eqb n n' && select_eqb s s' end) cs cs' && select_eqb x x'
+  | Select d i f w g h t o l, Select d' i' f' w' g' h' t' o' l' =>
       Bool.eqb d d' && list_eqb sel_eqb i i' && list_eqb table_eqb f f' && option_eqb expr_eqb w w'
-      && list_eqb expr_eqb g g' && list_eqb trigger_eqb t t' && list_eqb order_eqb o o'
+      && list_eqb expr_eqb g g' && option_eqb expr_eqb h h' && list_eqb trigger_eqb t t' && list_eqb order_eqb o o'
       && option_eqb (fun x y => match x, y with Limit ox rx, Limit oy ry => option_eqb expr_eqb ox oy && expr_eqb rx ry end) l l'
+  | _, _ => false
   end
 with sel_eqb (a b : sel_expr) : bool :=
   match a, b with
